@@ -64,9 +64,15 @@ type Chan struct {
 	Closed bool
 	ElemT  types.Type
 	// unbuffered rendezvous: a parked sender's value
-	sendq []*chanSend
+	sendq       []*chanSend
 	recvWaiting int
 	selWaiters  []*selWaiter // selects parked on this channel
+	// happens-before clocks (race detection): one per buffered element, the close,
+	// and the receives (the k-th receive happens before the (k+cap)-th send completes)
+	vcs     []VC
+	closeVC VC
+	recvVCs []VC
+	nsent   int
 }
 
 // selWaiter is a select statement parked on several channels. Like the Go
@@ -81,15 +87,17 @@ type chanSend struct {
 	v     Value
 	taken bool
 	th    *Thread
+	vc    VC // sender's clock at the send
+	rvc   VC // receiver's clock at the receive (unbuffered: the receive happens before the send completes)
 }
 
 // Seq is an immutable byte sequence (string or []byte).
 type Seq struct {
-	Len  *smt.Term                     // BV64
-	At   func(i *smt.Term) *smt.Term   // BV64 -> BV8
-	Max  int                           // concrete upper bound on Len, -1 if unknown
-	Conc []byte                        // non-nil (possibly empty) iff fully concrete
-	Nil  bool                          // nil slice
+	Len  *smt.Term                   // BV64
+	At   func(i *smt.Term) *smt.Term // BV64 -> BV8
+	Max  int                         // concrete upper bound on Len, -1 if unknown
+	Conc []byte                      // non-nil (possibly empty) iff fully concrete
+	Nil  bool                        // nil slice
 	isC  bool
 }
 
